@@ -987,12 +987,15 @@ impl StepMode {
                 c.put(4 * v as u32, &[rng.u8(), (h >> 16) as u8, (h >> 8) as u8, h as u8]);
             }
             // schedule: bursts, repeats, requests while handlers run
-            let steps = rng.range(20, 120) as u32;
-            let nreq = rng.range(0, 10);
+            // one program in twelve: a deep queue (tens to a hundred-odd requests outstanding at once, around the powers of
+            // two a fixed-depth queue would have), with enough steps to drain it
+            let deep = rng.chance(1, 12);
+            let nreq = if deep { *rng.pick(&[15u64, 16, 17, 31, 32, 33, 34, 40, 63, 64, 65, 100, 129]) } else { rng.range(0, 10) };
+            let steps = if deep { 5 * nreq as u32 + 30 } else { rng.range(20, 120) as u32 };
             let mut sched: Vec<(u32, u8)> = Vec::new();
             let mut k = 0u32;
             for _ in 0..nreq {
-                if !rng.chance(1, 3) {
+                if !rng.chance(1, 3) && !(deep && rng.chance(9, 10)) {
                     k += rng.below(12) as u32;
                 }
                 if k >= steps {
